@@ -328,6 +328,35 @@ func apply(ctx *fasthttp.RequestCtx, o opD) string {
 			panic("bad stream kind")
 		}
 		return hlib.App("HSetBodyStream", hlib.Z(int64(size)), streamCoq(s))
+	case "Success": // ctx.Success / SuccessString = SetContentType + SetBody
+		if o.Vr%2 == 0 {
+			ctx.Success(string(k), v)
+		} else {
+			ctx.SuccessString(string(k), string(v))
+		}
+		return hdr(hlib.App("ROSetContentType", pk.Hex(k))) + "; " + hlib.App("HSetBody", pk.Hex(v))
+	case "BodyWriter": // Response.BodyWriter() / fmt.Fprintf(ctx, ...) = AppendBody
+		if o.Vr%2 == 0 {
+			ctx.Response.BodyWriter().Write(v) //nolint:errcheck
+		} else {
+			fmt.Fprintf(ctx, "%s", v)
+		}
+		return hlib.App("HAppendBody", pk.Hex(v))
+	case "NotFound": // Response.Reset; SetStatusCode(404); SetBodyString
+		ctx.NotFound()
+		return "HReset; " + hdr(hlib.App("ROSetStatusCode", hlib.Z(404))) + "; " + hlib.App("HSetBody", pk.HexS("404 Page not found"))
+	case "Reset":
+		ctx.Response.Reset()
+		return "HReset"
+	case "SetCookie": // a cookie object with key, value, HttpOnly, Secure
+		var ck fasthttp.Cookie
+		ck.SetKeyBytes(k)
+		ck.SetValueBytes(v)
+		ck.SetHTTPOnly(o.B)
+		ck.SetSecure(o.Vr%2 == 1)
+		h.SetCookie(&ck)
+		return hdr(hlib.App("ROSetCookie", hlib.App("crun", "(np_of_table [])", hlib.List([]string{hlib.App("OKey", pk.Hex(k)), hlib.App("OValue", pk.Hex(v)),
+			hlib.App("OHTTPOnly", hlib.Bool(o.B)), hlib.App("OSecure", hlib.Bool(o.Vr%2 == 1))}))))
 	case "SkipBody":
 		ctx.Response.SkipBody = o.B
 		return hlib.App("HSkipBody", hlib.Bool(o.B))
@@ -586,6 +615,9 @@ func rheaderOp(r *rand.Rand) opD {
 	case 13:
 		return opD{T: "Set", K: []byte(hlib.Pick(r, []string{"Date", "Transfer-Encoding", "transfer-encoding", "Server"})), V: []byte(hlib.Pick(r, []string{"chunked", "identity", "x"})), Vr: r.Intn(5)}
 	case 14:
+		if r.Intn(2) == 0 {
+			return opD{T: "SetCookie", K: hlib.Bytes(r, []byte("abcxyz"), 4), V: hlib.Bytes(r, []byte("abc123 =;"), 8), B: r.Intn(2) == 0, Vr: r.Intn(2)}
+		}
 		return opD{T: "SetCanonical", K: k, V: v}
 	default:
 		return opD{T: hlib.Pick(r, []string{"SetConnectionClose", "ResetConnectionClose", "SetNoDefaultContentType"}), B: r.Intn(2) == 0, Vr: r.Intn(3)}
@@ -602,6 +634,14 @@ func rbodyOp(r *rand.Rand) opD {
 	case 5:
 		return opD{T: "SetBodyRaw", V: rbody(r)}
 	case 6:
+		switch r.Intn(5) {
+		case 0:
+			return opD{T: "Success", K: []byte(hlib.Pick(r, []string{"text/html", "application/json"})), V: rbody(r), Vr: r.Intn(2)}
+		case 1:
+			return opD{T: "BodyWriter", V: rbody(r), Vr: r.Intn(2)}
+		case 2:
+			return opD{T: hlib.Pick(r, []string{"NotFound", "Reset"})}
+		}
 		return opD{T: "ResetBody"}
 	case 7, 8: // stream of unknown size
 		kind := hlib.Pick(r, []string{"reader", "reader", "writerto", "swriter", "gwriterto"})
@@ -908,6 +948,14 @@ func corpus() []desc {
 			add("status-sweep", two(m, sc, opD{T: "SetBodyStream", N: -1, S: rd("reader", false, "hel", "lo")}))
 			add("status-sweep", two(m, sc))
 		}
+	}
+	// the convenience calls of RequestCtx and cookie objects
+	for _, m := range []string{"GET", "HEAD"} {
+		add("ctx-api", two(m, opD{T: "Set", K: hlib.B("X-A"), V: hlib.B("1")}, opD{T: "SetBody", V: hlib.B("gone")}, opD{T: "NotFound"}, opD{T: "Set", K: hlib.B("X-B"), V: hlib.B("2")}))
+		add("ctx-api", two(m, opD{T: "SetStatusCode", N: 500}, opD{T: "SetBodyStream", N: -1, S: rd("reader", false, "gone")}, opD{T: "Reset"}, opD{T: "BodyWriter", V: hlib.B("after reset")}))
+		add("ctx-api", two(m, opD{T: "Success", K: hlib.B("application/json"), V: hlib.B("{}")}, opD{T: "BodyWriter", V: hlib.B("tail"), Vr: 1}))
+		add("ctx-api", two(m, opD{T: "SetCookie", K: hlib.B("sid"), V: hlib.B("abc"), B: true, Vr: 1}, opD{T: "SetCookie", K: hlib.B("t"), V: hlib.B("1")}, opD{T: "SetCookie", K: hlib.B("sid"), V: hlib.B("replaced")},
+			opD{T: "Add", K: hlib.B("Set-Cookie"), V: hlib.B("raw=1")}, opD{T: "SetBody", V: hlib.B("cookies")}))
 	}
 	// Del of every header the Response keeps outside h.h
 	for _, k := range []string{"Content-Type", "Content-Encoding", "Server", "Set-Cookie", "Connection", "Trailer", "Transfer-Encoding", "Date", "content-type", "X-Foo"} {
